@@ -2,6 +2,7 @@ package nodeutil
 
 import (
 	"fmt"
+	"github.com/freeconf/yang/fc"
 	"reflect"
 	"sort"
 	"strings"
@@ -330,6 +331,9 @@ func (self Reflect) listMap(v reflect.Value) node.Node {
 		OnNext: func(r node.ListRequest) (node.Node, []val.Value, error) {
 			var item reflect.Value
 			key := r.Key
+			if (r.New || key != nil) && !isKeyValid(key) {
+				return nil, nil, fmt.Errorf("%w. no key specified for %s", fc.BadRequestError, r.Path.String())
+			}
 			if r.New {
 				item = self.create(e, nil)
 				keyVal := reflect.ValueOf(key[0].Value())
